@@ -221,9 +221,6 @@ func genF7(g *fw.GenCtx, em *emitter) {
 		for _, s := range order {
 			if on[s] {
 				scopes = append(scopes, s)
-				if g.Quick() {
-					break
-				}
 			}
 		}
 		for _, s := range scopes {
@@ -231,10 +228,16 @@ func genF7(g *fw.GenCtx, em *emitter) {
 		}
 	}
 	progs = append(progs, f7FunctionPrograms()...)
-	perProg := g.Pick(5, 40)
+	perProg := g.Pick(1, 40)
 	for _, p := range progs {
-		seqs := [][]rq{{byName["plain"]}}
-		for k := 0; k < perProg; k++ {
+		// always: one plain request, and the same plain request twice (the second one is a cache hit, which
+		// takes the hit -> deliver path without a backend request)
+		seqs := [][]rq{{byName["plain"]}, {byName["plain"], byName["plain"]}}
+		nseq := perProg
+		if strings.HasPrefix(p.con, "req:") && g.Quick() {
+			nseq = 5
+		}
+		for k := 0; k < nseq; k++ {
 			n := 1 + r.Intn(3)
 			var s []rq
 			for j := 0; j < n; j++ {
